@@ -253,7 +253,8 @@ def render(spec, style):
     for m, pos in zip(meta, style["meta_pos"]):
         inserts.append((min(pos, len(lines)), m))
     for pos in style["comments"]:
-        inserts.append((min(pos, len(lines)), "# some free comment %d" % pos))
+        # free text, a bare '#', '#' followed by blanks only, '#' directly followed by text
+        inserts.append((min(pos, len(lines)), ["# some free comment %d" % pos, "#", "#   ", "#note %d" % pos, "#\t"][pos % 5]))
     for pos, text in sorted(inserts, key=lambda t: -t[0]):
         lines.insert(pos, text)
     exp = {"cells": expected, "data_cols": data_cols, "var": var, "has_obs": has_obs, "has_fcst": has_fcst, "has_pit": d.get("pit") is not None,
